@@ -30,8 +30,19 @@ class Case:
 
 
 def _load_prop(pid):
+    """imports props.<pid>; cases shared from property modules that (transitively) import this one are listed by an optional
+    LATE_CASES() of the module, called once here, after every module is fully initialised"""
     import importlib
-    return importlib.import_module("props." + pid)
+    mod = importlib.import_module("props." + pid)
+    late = getattr(mod, "LATE_CASES", None)
+    if late is not None and not getattr(mod, "_late_done", False):
+        mod._late_done = True
+        have = {c.cid for c in mod.CASES}
+        for c in late():
+            if c.cid not in have:
+                have.add(c.cid)
+                mod.CASES.append(c)
+    return mod
 
 
 # ---------------------------------------------------------------------------
